@@ -156,6 +156,7 @@ static void shift_col (Form * F, int c, const mpq_t d)    /* x = x' + d */
 	mpq_mul (t, L->obj[c], d); mpq_sub (F->vo, F->vo, t);
 	mpq_clear (t);
 }
+static int use_cat, use_T;
 /* returns 0 if applied, 1 if not applicable */
 static int transform (Form * F, int t)
 {
@@ -173,8 +174,9 @@ static int transform (Form * F, int t)
 	case T_ROWx2: if (!m) { rv = 1; break; } mpq_set_si (k, 2, 1); scale_row (L, 0, k); break;
 	case T_ROWx13: if (!m) { rv = 1; break; } mpq_set_si (k, 1, 3); scale_row (L, 0, k); break;
 	case T_ROWx13LAST: if (m < 2) { rv = 1; break; } mpq_set_si (k, 1, 3); scale_row (L, m - 1, k); break;
-	case T_ROWx1e8: if (!m) { rv = 1; break; } mpq_set_si (k, 100000000, 1); scale_row (L, 0, k); break;
-	case T_ROWLASTxNEG1e8: if (m < 2) { rv = 1; break; } mpq_set_si (k, -100000000, 1); scale_row (L, m - 1, k); break;
+	/* the two 10^8 scalings push tiny LPs through the whole precision ladder: only on the families run with the full ladder (T, catalogue) */
+	case T_ROWx1e8: if (!m || !(use_T || use_cat)) { rv = 1; break; } mpq_set_si (k, 100000000, 1); scale_row (L, 0, k); break;
+	case T_ROWLASTxNEG1e8: if (m < 2 || !(use_T || use_cat)) { rv = 1; break; } mpq_set_si (k, -100000000, 1); scale_row (L, m - 1, k); break;
 	case T_ROWNEG: if (!m) { rv = 1; break; } mpq_set_si (k, -1, 1); scale_row (L, 0, k); break;
 	case T_ROWNEGLAST: if (m < 2) { rv = 1; break; } mpq_set_si (k, -1, 1); scale_row (L, m - 1, k); break;
 	case T_COLx2: if (!n) { rv = 1; break; } mpq_set_si (k, 2, 1); scale_col (L, 0, k); break;
@@ -217,7 +219,7 @@ static int transform (Form * F, int t)
 }
 
 /* ------------------------------------------------------------ family */
-static int use_cat, use_T, depth2, maxcat, o_algo = DUAL_SIMPLEX;
+static int depth2, maxcat, o_algo = DUAL_SIMPLEX;
 static void meta_init (void)
 {
 	const char *fam = opt_str ("fam", "S0q");
